@@ -14,8 +14,11 @@ from . import filemodel
 from . import workers as _W
 
 
-def clone(c, callees=None, lib=None, only=None, hooks=None):
+def clone(c, callees=None, lib=None, only=None, hooks=None, home=None):
+    """home: name of the contract module (e.g. "c09") whose LIB / AXIOMS / HOOKS apply to this contract when another property lists it"""
     c2 = copy.copy(c)
+    if home is not None:
+        c2.home = home
     if hooks is not None:
         c2.hooks = hooks
     c2.ensures = dict(c.ensures) if only is None else {k: v for k, v in c.ensures.items() if only(k)}
@@ -35,8 +38,8 @@ def readers():
     """read_batch dispatch + the slice / index readers + the unit table of the file header"""
     out = []
     for c in _C12.read_batch_slice + _C12.read_batch_idx + _C12.read_batch:
-        out.append(clone(c, callees=getattr(c, "callees", None) or _C12.CALLEES, lib=getattr(c, "lib", None) or _C12.LIB, hooks=getattr(_C12, "HOOKS", None)))
-    out.append(clone(_C12.header_units, hooks=getattr(_C12, "HOOKS", None)))
+        out.append(clone(c, callees=getattr(c, "callees", None) or _C12.CALLEES, lib=getattr(c, "lib", None) or _C12.LIB, hooks=getattr(_C12, "HOOKS", None), home="c12"))
+    out.append(clone(_C12.header_units, hooks=getattr(_C12, "HOOKS", None), home="c12"))
     return out
 
 
@@ -46,26 +49,26 @@ def _wlib():
 
 def plumbing(which=("ll", "post")):
     """run_worker (task partition, child generators), the pool workers, and the helpers that put the blocks together for any batching"""
-    out = [clone(c, callees=_W.RW_CALLEES, lib=_wlib()) for c in _W.run_worker_contracts]
+    out = [clone(c, callees=_W.RW_CALLEES, lib=_wlib(), home="c05") for c in _W.run_worker_contracts]
     if "ll" in which:
-        out += [clone(c, callees=_W.CHAIN_CALLEES, lib=_wlib()) for c in _W.ll_worker + [_W.ll_helper_body]]
+        out += [clone(c, callees=_W.CHAIN_CALLEES, lib=_wlib(), home="c05") for c in _W.ll_worker + [_W.ll_helper_body]]
     if "post" in which:
-        out += [clone(c, callees=_W.CHAIN_CALLEES, lib=_wlib()) for c in _W.post_worker + [_W.full_body]]
+        out += [clone(c, callees=_W.CHAIN_CALLEES, lib=_wlib(), home="c05") for c in _W.post_worker + [_W.full_body]]
     return out
 
 
 def tables(pack=True, unpack=True):
     out = []
     if pack:
-        out += [clone(c, callees=getattr(c, "callees", None) or _C17.CALLEES, lib=_C17.LIB, hooks=_C17.HOOKS) for c in _C17.pack]
+        out += [clone(c, callees=getattr(c, "callees", None) or _C17.CALLEES, lib=_C17.LIB, hooks=_C17.HOOKS, home="c17") for c in _C17.pack]
     if unpack:
-        out += [clone(c, lib=_C17.LIB, hooks=_C17.HOOKS) for c in _C17.unpack]
+        out += [clone(c, lib=_C17.LIB, hooks=_C17.HOOKS, home="c17") for c in _C17.unpack]
     return out
 
 
 def wrapper():
     """the cache-file decorator: the wrapped helper gets the user's file, or a temporary file written from the user's object itself"""
-    return [clone(c, callees=_C13.CALLEES, lib=_C13.LIB, hooks=_C13.HOOKS,
+    return [clone(c, callees=_C13.CALLEES, lib=_C13.LIB, hooks=_C13.HOOKS, home="c13",
                   only=lambda k: k in ("wrapped-function-gets-the-right-file", "cache-file-written-from-the-object-itself"))
             for c in _C13.wrapper]
 
